@@ -455,4 +455,123 @@ def sccComponents (g : Graph) (etype : Option Nat) : List (List Nat) :=
   (tjAll g etype (g.nodes.length + 1) (g.nodes.map (·.id))
     { index := 0, indices := [], low := [], stack := [], comps := [] }).comps.reverse
 
+/-! ### find_all_weighted_paths as the engine runs it: the enumeration stops at `max_paths` -/
+
+mutual
+/-- `awEnum` cut after `k` results WITHOUT exploring further (`if paths.len() >= max_paths { break }`
+    at the top of the engine's loop).  `findAllWeightedPathsFast_eq` (AllWFastProofs) proves it equal
+    to `(awEnum ..).take k`; the driver runs this version, because the full enumeration is exponential
+    on dense zero-weight graphs. -/
+def awEnumTake (parents : MultiParent) (src : Nat) : Nat → Nat → List Nat → List Nat → Nat → List Path
+  | d, cur, ns, es, k =>
+    if k == 0 then []
+    else if cur == src then [{ nodes := ns, edges := es }]
+    else match d with
+      | 0 => []
+      | d + 1 =>
+        match lookupParents parents cur with
+        | none => []
+        | some ps => awEnumTakeList parents src d ns es ps.reverse k
+termination_by d _ _ _ _ => (d, 0)
+/-- the parents of one node, first to last (already reversed by the caller) -/
+def awEnumTakeList (parents : MultiParent) (src : Nat) (d : Nat) (ns es : List Nat) :
+    List (Nat × Nat) → Nat → List Path
+  | [], _ => []
+  | (p, eid) :: rest, k =>
+    if k == 0 then []
+    else
+      let here := if ns.contains p then [] else awEnumTake parents src d p (p :: ns) (eid :: es) k
+      here ++ awEnumTakeList parents src d ns es rest (k - here.length)
+termination_by ps _ => (d, ps.length + 1)
+end
+
+/-- `findAllWeightedPaths` with the early-stopping enumeration -/
+def findAllWeightedPathsFast (g : Graph) (maxPaths cap : Nat) (src tgt : Nat) : Except QErr AllWPaths :=
+  if !g.hasNode src then .error (.nodeNotFound src)
+  else if !g.hasNode tgt then .error (.nodeNotFound tgt)
+  else if src == tgt then .ok { total := 0, paths := [{ nodes := [src], edges := [] }] }
+  else
+    match awLoop g cap tgt (dijFuel g) { dist := [(src, 0)], parents := [], heap := [(0, src)], dc := none } with
+    | .error id => .error (.negativeWeight id)
+    | .ok st =>
+      match st.dc with
+      | none => .error .pathNotFound
+      | some total =>
+        .ok { total := total, paths := awEnumTake st.parents src (awDepth g) tgt [tgt] [] maxPaths }
+
+/-! ### articulation_points / bridges (algorithms/biconnected.rs, low-link DFS on the undirected view) -/
+
+/-- `BiconnectedState` without `edge_stack` / `components` (the biconnected components' edge sets are
+    not modelled; articulation points and bridges do not depend on them) -/
+structure BcSt where
+  time : Nat
+  disc : NatMap
+  low : NatMap
+  parent : NatMap                 -- `parent[v] = Some(u)`; a DFS root has no entry
+  aps : List Nat                  -- `articulation_points` (a set: repeated inserts are harmless)
+  bridges : List (Nat × Nat)      -- (smaller id, larger id), newest first
+deriving Repr, Inhabited
+
+mutual
+/-- `biconnected_dfs(u)`; the fuel bounds the recursion depth -/
+def bcVisit (g : Graph) (etype : Option Nat) : Nat → Nat → BcSt → BcSt
+  | 0, _, st => st
+  | fuel + 1, u, st =>
+    bcNbrs g etype fuel u (nbrSet g etype .both u) 0
+      { st with disc := (u, st.time) :: st.disc, low := (u, st.time) :: st.low, time := st.time + 1 }
+termination_by fuel _ _ => (fuel, 0)
+/-- `for v in neighbors` with the running `children` counter.  (The engine sorts the neighbours by
+    id; the model keeps `nbrSet` order — the answers are sets that do not depend on it.) -/
+def bcNbrs (g : Graph) (etype : Option Nat) : Nat → Nat → List Nat → Nat → BcSt → BcSt
+  | _, _, [], _, st => st
+  | fuel, u, v :: vs, ch, st =>
+    match nmGet st.disc v with
+    | none =>
+      let st' := bcVisit g etype fuel v { st with parent := (v, u) :: st.parent }
+      let lowV := (nmGet st'.low v).getD 0
+      let lowU := (nmGet st'.low u).getD 0
+      let discU := (nmGet st'.disc u).getD 0
+      let isRoot := (nmGet st'.parent u).isNone
+      let ap : Bool := if isRoot then decide (ch + 1 > 1) else decide (lowV ≥ discU)
+      bcNbrs g etype fuel u vs (ch + 1)
+        { st' with low := (u, min lowU lowV) :: st'.low,
+                   aps := if ap then u :: st'.aps else st'.aps,
+                   bridges := if lowV > discU then (min u v, max u v) :: st'.bridges else st'.bridges }
+    | some discV =>
+      if nmGet st.parent u != some v then
+        let lowU := (nmGet st.low u).getD 0
+        if discV < lowU then bcNbrs g etype fuel u vs ch { st with low := (u, discV) :: st.low }
+        else bcNbrs g etype fuel u vs ch st
+      else bcNbrs g etype fuel u vs ch st
+termination_by fuel _ vs _ _ => (fuel, vs.length + 1)
+end
+
+/-- `for &node in &nodes { if !discovery.contains_key(node) { dfs(node) } }` -/
+def bcAll (g : Graph) (etype : Option Nat) (fuel : Nat) : List Nat → BcSt → BcSt
+  | [], st => st
+  | n :: ns, st =>
+    match nmGet st.disc n with
+    | none => bcAll g etype fuel ns (bcVisit g etype fuel n st)
+    | some _ => bcAll g etype fuel ns st
+
+def bcFinal (g : Graph) (etype : Option Nat) : BcSt :=
+  bcAll g etype (g.nodes.length + 1) (g.nodes.map (·.id))
+    { time := 0, disc := [], low := [], parent := [], aps := [], bridges := [] }
+
+/-- `articulation_points(config)` as a set -/
+def articulationPoints (g : Graph) (etype : Option Nat) : List Nat := (bcFinal g etype).aps.eraseDups
+
+/-- `bridges(config)`: node pairs (smaller id first) -/
+def bridgePairs (g : Graph) (etype : Option Nat) : List (Nat × Nat) := (bcFinal g etype).bridges.reverse
+
+/-! ### find_variable_paths under `max_paths` -/
+
+/-- `find_variable_paths` with `config.max_paths = k ≥ 1`: every test `paths.len() >= max_paths` stops
+    the search as soon as `k` matches are collected, so the answer is the first `k` matches of the
+    untruncated enumeration (the memory limit is not modelled; `stats.truncated` is not modelled) -/
+def findVariablePathsCapped (g : Graph) (cfg : VarCfg) (flt : Flt) (src tgt k : Nat) : Except QErr (List Path) :=
+  match findVariablePaths g cfg flt src tgt with
+  | .ok ps => .ok (ps.take k)
+  | .error e => .error e
+
 end Neumann.Paths
